@@ -3,7 +3,7 @@
 set -u
 export GOFLAGS=-mod=mod GOPROXY=off GOSUMDB=off GOTOOLCHAIN=local
 ID=$1
-declare -A PKG=( [C13]=x/coinomics/keeper [C13b]=x/coinomics/keeper [C19]=x/coinomics/keeper [C12]=x/ucdao/keeper [C05]=precompiles/staking [C02]=precompiles/staking [C01]=app [C04-ics20]=precompiles/ics20 [C03]=precompiles/staking [C03b]=app/ante/evm [C03c]=app/ante/evm [C07]=app/ante/evm [C17]=x/feemarket/keeper [C17b]=x/feemarket/keeper [C04]=precompiles/staking [C04-createvalidator]=precompiles/staking [C04-oog]=precompiles/staking [C02-ics20]=precompiles/ics20 [C02-distribution]=precompiles/distribution [C11]=x/liquidvesting/keeper [C09]=x/vesting/keeper [C10]=x/erc20/keeper [C10-send]=x/bank/keeper [C10-ics20]=precompiles/ics20 [C09b]=x/vesting/keeper [C19-epochs]=x/epochs [C17c]=x/feemarket/keeper )
+declare -A PKG=( [C13]=x/coinomics/keeper [C13b]=x/coinomics/keeper [C19]=x/coinomics/keeper [C12]=x/ucdao/keeper [C05]=precompiles/staking [C02]=precompiles/staking [C01]=app [C04-ics20]=precompiles/ics20 [C03]=precompiles/staking [C03b]=app/ante/evm [C03c]=app/ante/evm [C07]=app/ante/evm [C17]=x/feemarket/keeper [C17b]=x/feemarket/keeper [C04]=precompiles/staking [C04-createvalidator]=precompiles/staking [C04-oog]=precompiles/staking [C02-ics20]=precompiles/ics20 [C02-distribution]=precompiles/distribution [C11]=x/liquidvesting/keeper [C09]=x/vesting/keeper [C10]=x/erc20/keeper [C10-send]=x/bank/keeper [C10-ics20]=precompiles/ics20 [C09b]=x/vesting/keeper [C19-epochs]=x/epochs [C17c]=x/feemarket/keeper [C04-denylist]=precompiles/staking )
 pkg=${PKG[$ID]}
 mkdir -p /verif/out/findings
 ov=/verif/out/findings/overlay_$ID.json
